@@ -87,6 +87,26 @@ Theorem C13_ring_measure_init : forall P, 3 <= pn P -> 1 <= pR P ->
                    pR P * (2 * (length (poss P) + pn P) + 2) + pW P * (2 * length (poss P) + 1).
 Proof. exact mu_init_bound. Qed.
 
+(* --- stop; start at the next block (the autosave of sync.c runs several ring sessions back to back) ----------- *)
+(* Session 1 on the list l = poss P1 is stopped early after h stripes, session 2 is started on the rest of l and
+   runs to the end of its range: together the caller is handed exactly l, every position once and in order; and
+   when every handed stripe of session 1 was passed to io_write_next (M st1 = h, the autosave comes right after
+   io_write_next) io_write_next sees exactly l over the two sessions (each session's writers drain before its
+   io_stop returns: C13_ring_order_writer_final). *)
+Theorem C13_ring_restart_order : forall P1 P2 st1 st2,
+  RingInv P1 st1 -> RingInv P2 st2 ->
+  poss P2 = skipn (length (handed st1)) (poss P1) ->
+  stopped st2 -> bailed st2 = false ->
+  rev (handed st1) ++ rev (handed st2) = poss P1.
+Proof. exact restart_order. Qed.
+Theorem C13_ring_restart_written : forall P1 P2 st1 st2,
+  3 <= pn P1 -> 1 <= pR P1 -> 3 <= pn P2 -> 1 <= pR P2 -> 0 < pW P2 ->
+  RingInv P1 st1 -> RingInv P2 st2 ->
+  poss P2 = skipn (M st1) (poss P1) ->
+  cpc st2 = CEnd -> bailed st2 = false ->
+  map fst (written st1) ++ map fst (written st2) = poss P1.
+Proof. exact restart_written. Qed.
+
 (* --- IO_MIN = 3 is necessary: with n = 2 a reachable state has every thread blocked for ever ------------------ *)
 Theorem C13_ring_n2_deadlock :
   reachable P2 n2_dead /\
@@ -102,6 +122,8 @@ Print Assumptions C13_ring_order_complete.
 Print Assumptions C13_ring_order_writer_final.
 Print Assumptions C13_ring_no_deadlock.
 Print Assumptions C13_ring_measure.
+Print Assumptions C13_ring_restart_order.
+Print Assumptions C13_ring_restart_written.
 Print Assumptions C13_ring_n2_deadlock.
 
 (* non-vacuity: a concrete ring (n = 3, two readers, one writer, positions 0 and 2 enabled below bmax = 3) runs from
